@@ -596,10 +596,10 @@ impl<C: OrdColl> OrdExec<C> {
         match want {
             None => {
                 if h != EMPTY_REF {
-                    let got = self.sut.read(h);
+                    // the handle is not dereferenced: it may not designate anything
                     return Err(Fail::new(
                         format!("{}:handle-instead-of-sentinel", what),
-                        format!("{} returned handle {} (entry key {} id {}) although no stored key satisfies the bound", what, h, got.0, got.1),
+                        format!("{} returned handle {} instead of the empty sentinel: no stored key satisfies the bound ({} keys stored)", what, h, self.model.len()),
                     ));
                 }
             }
